@@ -27,7 +27,7 @@ Neg16 == <<45, 49,48,48,48,48,48,48,48,48,48,48,48,48,48,48,48>>
 P(str) == str
 Probe == LET inner == Obj(<<<<97>>, <<49>>, <<>>, <<48>>>>, <<IntV(1), Arr(<<Null>>), Str(<<120>>), Null>>)      \* (the member "0" holds null: a value, not "missing")
              leaf == Arr(<<IntV(0), inner, Str(<<97, 98>>)>>)
-             ks == <<<<97>>, <<48>>, <<49>>, <<126>>, <<47>>, <<>>, <<233>>, <<32>>, <<45>>, <<43>>, <<35>>, <<48, 49>>, <<43, 49>>, <<32, 49>>, <<126, 49>>, <<97, 47>>, <<49, 1634>>, <<49, 50>>>>
+             ks == <<<<97>>, <<48>>, <<49>>, <<126>>, <<47>>, <<>>, <<233>>, <<32>>, <<45>>, <<43>>, <<35>>, <<48, 49>>, <<43, 49>>, <<32, 49>>, <<126, 49>>, <<97, 47>>, <<49, 1634>>, <<49, 50>>, <<35, 97>>>>      \* ("#a" next to "a": a member like any other)
          IN Obj(ks, [i \in 1..Len(ks) |-> IF ks[i] = <<43>> THEN Arr(<<Null>>) ELSE IF i % 3 = 0 THEN inner ELSE leaf])      \* ("+" holds a one-element array)
 
 Parts == {PtrEscape(t) : t \in JoinTokens}                                    \* a single token, escaped
